@@ -474,6 +474,52 @@ def parser_siblings(rep, u):
     return 1
 
 
+def prefix_passthrough(rep, u, fname="str_net_to_ss"):
+    """the prefix length reported by the network-text parser: a '/n' suffix with any n in 0..128 reaches *preflen_ret
+    unchanged (the 'no suffix' marker may not collide with a legal length), and without a suffix the family's full length is
+    reported.  Partial evaluation over (suffix present, n, family); the number parser, the delimiter search and the address
+    parser are represented by their results."""
+    fn = need(u, fname)
+    rep.functions.add(fname)
+    numcalls = [c for _p, _r, c, _ps in fn.calls() if (c.get("fn") or "").startswith(("str2u", "ustr2u", "strtou"))]
+    srch = [c for _p, _r, c, _ps in fn.calls() if (c.get("fn") or "").startswith(("mem_rchr", "mem_chr", "memchr", "memrchr", "strchr", "strrchr"))]
+    addrp = [c for _p, _r, c, _ps in fn.calls({"sa_addr_from_str", "sa_addr_port_from_str"})]
+    if len(numcalls) != 1 or len(srch) != 1 or len(addrp) != 1:
+        raise driver.AnalysisBroken("%s: expected one number parser, one delimiter search and one address parser (%d/%d/%d)" % (
+            fname, len(numcalls), len(srch), len(addrp)))
+    BUF, ADDR, OUT = 0x1000, 0x2000, 0x3000
+    n = 0
+    for fam, fname_, full in ((2, "AF_INET", 32), (10, "AF_INET6", 128)):
+        for have, v in [(1, x) for x in (0, 1, 8, 24, 31, 32, 64, 127, 128) if x <= full] + [(0, None)]:
+            pe = r_stride.PE(u)
+            bind = {"buf": BUF, "buf_size": 20, "addr": ADDR, "preflen_ret": OUT, "addr->ss_family": fam,
+                    key(srch[0]): (BUF + 10) if have else 0, key(addrp[0]): 0}
+            if have:
+                bind[key(numcalls[0])] = v
+            else:
+                bind[key(numcalls[0])] = r_stride.UNSURE
+            ev, ret = pe.trace(fn, bind)
+            n += 1
+            inst = "prefix:%s:%s" % (fname_, ("/%d" % v) if have else "none")
+            desc = "%s reports %s for %s text %s" % (fname, ("the written prefix length %d" % v) if have else ("the full length %d" % full), fname_,
+                                                      "with a '/%d' suffix" % v if have else "without a suffix")
+            if isinstance(ret, str):
+                rep.undecided("R-SPEC", fn, inst, desc, ret)
+                continue
+            got = ev[-1][1].get("*(preflen_ret)") if ev else None
+            want = v if have else full
+            if ret != 0:
+                rep.violated("R-SPEC", fn, inst, desc, "the call fails with status %s although the address parser accepted the text" % ret)
+            elif got == want:
+                rep.proved("R-SPEC", fn, inst, desc, "*preflen_ret = %s" % got)
+            elif got is None or got == r_stride.UNSURE:
+                rep.undecided("R-SPEC", fn, inst, desc, "stored value not evaluable")
+            else:
+                rep.violated("R-SPEC", fn, inst, desc, "*preflen_ret = %s: %s" % (got, "the 'no suffix' marker collides with this legal length"
+                                                                                   if have else "wrong default"))
+    return n
+
+
 def run(rep, tier):
     us = driver.load_units([common.src_unit(SA), common.src_unit(NU)])
     rep.use_units(us)
@@ -484,6 +530,7 @@ def run(rep, tier):
     rep.floor("prefix lengths evaluated", mask_functions(rep, unu, table), 160)
     rep.floor("family switch arms", kind_rule(rep, usa, SA) + kind_rule(rep, unu, NU), 20)
     parser_siblings(rep, usa)
+    rep.floor("prefix text cases", prefix_passthrough(rep, unu), 16)
     nwf = nacc = 0
     for lab, u in us.items():
         fns_ = [f for f in u.function_list if f.relfile() == lab]
